@@ -11,6 +11,8 @@ mod ordering;
 mod search;
 mod storage;
 mod companion;
+#[cfg(feature = "verif_hooks")]
+mod verif;
 
 pub use object::{BasicObject};
 pub use data::{BasicData, BasicDataUnitCustom};
